@@ -140,7 +140,7 @@ TRUSTED = [
     "CasADi forward AD (ca.jtimes) forms the ray derivative; its result is part of the extracted graph and is replayed numerically",
 ]
 ASSUMPTIONS = [
-    "lemma L-ODE: Phi' = A Phi, Phi(0) = I has the unique solution expm(tA): machine-checked in Lean 4 / mathlib (lemmas/LinearODE.lean, `./check lemmas`); the chain-rule step from the Euler-operator identity to Phi' = A Phi is stated in that file's header",
+    "lemma L-ODE: Phi' = A Phi, Phi(0) = I has the unique solution expm(tA): machine-checked in Lean 4 / mathlib (lemmas/LinearODE.lean, `./check lemmas`); the chain-rule step from the Euler-operator identity on the closed-form cell to Phi' = A Phi, and the extension to every ray by density, are machine-checked too (lemmas/FlowOfEuler.lean, flow_of_euler); continuity of the exact function and its differentiability on the closed-form cell are by inspection (composition of smooth atoms)",
     "flow/neg/comp are proved on the closed-form cell of every series coefficient (theta^2 >= 1e-3, all theta > 0 incl. beyond pi and both MRP shadow branches); on the Taylor cell the real-arithmetic deviation from the exact function is bounded rigorously (<= 1e-11, taylor-cell obligations; translations in [-1, 1])",
     "requires: Euler target outside the gimbal band; MRP results away from the shadow-switch boundary are covered on both branches",
 ]
